@@ -96,7 +96,7 @@ def sortDoms : List SyncDom → List SyncDom
 def syncPassF (f : FModule) (a : Array Int) (clks : List Nat) : Mods :=
   (sortDoms f.sync).foldl (fun m d => if clks.contains d.clk then execFs (envA a) d.stmts m else m) []
 
-def initF (f : FModule) : Array Int := f.sigs.map (·.reset)
+def initF (f : FModule) : Array Int := (f.sigs.toList.map (·.reset)).toArray
 
 /-! ### Verilog step -/
 
@@ -125,6 +125,42 @@ def syncPassV (items : List VItem) (a : Array Int) (clks : List Nat) : Pending :
     match it with
     | .sync clk body => if clks.contains clk then execVs (envA a) body p else p
     | _ => p) []
+
+/-! ### Whole cycles: drive the inputs, settle, observe, clock edge -/
+
+structure Cycle where
+  ins : List (Nat × Int)      -- input signal id, value driven in this cycle
+  clks : List Nat             -- clock signals with a rising edge at the end of the cycle
+  deriving Inhabited
+
+/-- Harness writes an input: the simulator stores the value in the signal's range (`_truncate`). -/
+def setInputsF (sigs : Array SigDecl) (a : Array Int) (ins : List (Nat × Int)) : Array Int :=
+  ins.foldl (fun acc iv =>
+    acc.setIfInBounds iv.1 (truncS (sigs.getD iv.1 default).w (sigs.getD iv.1 default).s iv.2)) a
+
+/-- The same input as a bit vector. -/
+def setInputsV (sigs : Array SigDecl) (a : Array Int) (ins : List (Nat × Int)) : Array Int :=
+  ins.foldl (fun acc iv => acc.setIfInBounds iv.1 (tn (widthOf sigs iv.1) iv.2)) a
+
+def settledF (f : FModule) (fuel : Nat) (a : Array Int) (c : Cycle) : Array Int :=
+  settleF f fuel (setInputsF f.sigs a c.ins)
+
+def edgeF (f : FModule) (a1 : Array Int) (c : Cycle) : Array Int := commitF a1 (syncPassF f a1 c.clks)
+
+def settledV (sigs : Array SigDecl) (items : List VItem) (fuel : Nat) (a : Array Int) (c : Cycle) : Array Int :=
+  settleV sigs items fuel (setInputsV sigs a c.ins)
+
+def edgeV (sigs : Array SigDecl) (items : List VItem) (a1 : Array Int) (c : Cycle) : Array Int :=
+  commitV sigs a1 (syncPassV items a1 c.clks)
+
+/-- Settled state of every cycle (what the harness observes), from state `a`. -/
+def runF (f : FModule) (fuel : Nat) : Array Int → List Cycle → List (Array Int)
+  | _, [] => []
+  | a, c :: cs => settledF f fuel a c :: runF f fuel (edgeF f (settledF f fuel a c) c) cs
+
+def runV (sigs : Array SigDecl) (items : List VItem) (fuel : Nat) : Array Int → List Cycle → List (Array Int)
+  | _, [] => []
+  | a, c :: cs => settledV sigs items fuel a c :: runV sigs items fuel (edgeV sigs items (settledV sigs items fuel a c) c) cs
 
 /-! ### Module printer -/
 
